@@ -9,6 +9,7 @@ import (
 	"fmt"
 	"os"
 	"os/exec"
+	"path/filepath"
 	"sort"
 	"strings"
 
@@ -25,7 +26,7 @@ import (
 )
 
 type pInput struct {
-	Kind   string   `json:"kind"` // model | text | modset | modfile | str
+	Kind   string   `json:"kind"` // model | jmodel (JSON-only shape: `this` not first) | text | modset | modfile | str
 	Model  *Model   `json:"model,omitempty"`
 	Text   string   `json:"text,omitempty"`
 	ModSet *wlMerge `json:"modset,omitempty"`
@@ -89,7 +90,7 @@ type rInput struct {
 func realise(in *pInput) *rInput {
 	r := &rInput{in: in}
 	switch in.Kind {
-	case "model":
+	case "model", "jmodel":
 		r.dsl = in.Model.toDSL()
 		r.pm = in.Model.toProto()
 		r.pmCopy = proto.Clone(r.pm).(*openfgav1.AuthorizationModel)
@@ -135,6 +136,7 @@ func detBytes(m proto.Message) string {
 
 var opsByKind = map[string][]string{
 	"model":   {"dsl2proto", "dsl2json", "moddsl2proto", "json2dsl", "proto2dsl", "plaingraph", "wgraph", "assignable"},
+	"jmodel":  {"json2dsl", "proto2dsl", "plaingraph", "wgraph", "assignable", "json2dsl", "proto2dsl"},
 	"text":    {"dsl2proto", "dsl2json", "moddsl2proto", "json2dsl", "modfile"},
 	"modset":  {"merge"},
 	"modfile": {"modfile"},
@@ -487,6 +489,70 @@ func attributeModel(r *rng, m *Model) {
 	}
 }
 
+// unhoist moves the direct assignment of unions/intersections away from the
+// first position (the printer hoists it back; JSON and proto models may have
+// it anywhere).
+func unhoist(r *rng, m *Model) {
+	var rec func(e *Expr)
+	rec = func(e *Expr) {
+		if e == nil {
+			return
+		}
+		if (e.Kind == KUnion || e.Kind == KInter) && len(e.Children) >= 2 && e.Children[0].Kind == KThis {
+			j := 1 + r.intn(len(e.Children)-1)
+			e.Children[0], e.Children[j] = e.Children[j], e.Children[0]
+		}
+		for _, c := range e.Children {
+			rec(c)
+		}
+	}
+	for _, t := range m.Types {
+		for _, rel := range t.Relations {
+			rec(rel.Expr)
+		}
+	}
+}
+
+// genBroadWorkload: every kind of call, from 2-3 tasks, on shared inputs, no
+// history - meant to be the very first thing a fresh process does, so that
+// first-use initialisation of any process-global state runs concurrently.
+func genBroadWorkload(r *rng) *wlPure {
+	wl := &wlPure{}
+	m := genDSLModel(r)
+	jm := genDSLModel(r)
+	unhoist(r, jm)
+	attributeModel(r, jm)
+	wl.Inputs = []pInput{
+		{Kind: "model", Model: m},
+		{Kind: "jmodel", Model: jm},
+		{Kind: "text", Text: mutateText(r, m.toDSL())},
+		{Kind: "modset", ModSet: genModuleSet(r, r.intn(2))},
+		{Kind: "modfile", Text: r.pick(modFileTexts)},
+		{Kind: "str", Text: r.pick(validatorStrings)},
+	}
+	nt := 2 + r.intn(2)
+	for t := 0; t < nt; t++ {
+		var ops []pOp
+		for i, in := range wl.Inputs {
+			seen := map[string]bool{}
+			for _, k := range opsByKind[in.Kind] {
+				if !seen[k] {
+					seen[k] = true
+					ops = append(ops, pOp{Kind: k, In: i, Opt: r.chance(50)})
+				}
+			}
+		}
+		p := r.perm(len(ops))
+		sh := make([]pOp, len(ops))
+		for i, j := range p {
+			sh[i] = ops[j]
+		}
+		// keep runs short: a random two thirds of the calls
+		wl.Tasks = append(wl.Tasks, sh[:len(sh)*2/3])
+	}
+	return wl
+}
+
 func genPureWorkload(r *rng) *wlPure {
 	wl := &wlPure{}
 	nIn := 2 + r.intn(4)
@@ -500,6 +566,15 @@ func genPureWorkload(r *rng) *wlPure {
 			}
 			wl.Inputs = append(wl.Inputs, pInput{Kind: "model", Model: m})
 			baseDSL = append(baseDSL, m.toDSL())
+		case x < 55:
+			// a JSON-only shape the printer accepts: the direct assignment is not
+			// the first child of its union / intersection (it gets hoisted)
+			m := genDSLModel(r)
+			unhoist(r, m)
+			if r.chance(35) {
+				attributeModel(r, m)
+			}
+			wl.Inputs = append(wl.Inputs, pInput{Kind: "jmodel", Model: m})
 		case x < 70:
 			var src string
 			if len(baseDSL) > 0 && r.chance(70) {
@@ -564,7 +639,7 @@ func (wl *wlPure) describe() string {
 	for i, in := range wl.Inputs {
 		fmt.Fprintf(&sb, "input %d (%s):\n", i, in.Kind)
 		switch in.Kind {
-		case "model":
+		case "model", "jmodel":
 			sb.WriteString(in.Model.toDSL())
 		case "modset":
 			sb.WriteString(in.ModSet.describe())
@@ -684,6 +759,9 @@ func pureRunOne(b *BatchResult, prop string, seed, run uint64, race bool, restar
 			b.violation(v)
 		}
 	}
+	if race && restartEvery > 0 && run%12 == 0 {
+		coldProcessRaceProbe(b, prop, seed, run, r)
+	}
 	if len(b.Samples) < 3 && run%5 == 0 {
 		b.Samples = append(b.Samples, Sample{Workload: shortenLines(wl.describe(), 40), Sched: fmt.Sprintf("preempt 1/%d, %d switches, %d steps", s.cfg.PreemptDen, st.Switches, st.Steps), Outcome: summary})
 	}
@@ -766,7 +844,7 @@ func pureCandidates(raw json.RawMessage) []json.RawMessage {
 	// shrink inputs that are still referenced
 	for i, in := range wl.Inputs {
 		switch in.Kind {
-		case "model":
+		case "model", "jmodel":
 			for _, cm := range modelCandidates(in.Model) {
 				c := clone()
 				c.Inputs[i].Model = cm
@@ -795,4 +873,66 @@ func pureCandidates(raw json.RawMessage) []json.RawMessage {
 		}
 	}
 	return out
+}
+
+// coldProcessRaceProbe (restart.process for the race build): a broad
+// concurrent workload is executed as the first thing a fresh -race process
+// does; its race log is read back. Replaying the violation file is the same
+// thing (a replay is a fresh process).
+func coldProcessRaceProbe(b *BatchResult, prop string, seed, run uint64, r *rng) {
+	wl := genBroadWorkload(r)
+	s := pureSched(r, len(wl.Tasks))
+	s.cfg.MapDen, s.cfg.ClockDen = 0, 0
+	wj, _ := json.Marshal(wl)
+	v := Violation{Property: prop, Engine: "puresim", Class: "race.data_race", Seed: seed, Run: run, Workload: wj, Sched: s.cfg,
+		SchedName: "cold-process-random", Describe: wl.describe(), RaceReport: "pending"}
+	dir, err := os.MkdirTemp("", "verif-coldrace-")
+	if err != nil {
+		return
+	}
+	defer os.RemoveAll(dir)
+	vf := dir + "/v.json"
+	if writeJSON(vf, &v) != nil {
+		return
+	}
+	cmd := exec.Command(os.Args[0], "replay", "-file", vf, "-out", dir+"/res.json")
+	cmd.Env = append(os.Environ(), "GOMAXPROCS=1", "GORACE=log_path="+dir+"/race halt_on_error=0 exitcode=0 history_size=4", "VERIF_RACELOG="+dir+"/race")
+	if out, err := cmd.CombinedOutput(); err != nil {
+		b.Probes["cold_process_probe_failed"]++
+		_ = out
+		return
+	}
+	b.Faults["restart.process"]++
+	b.Probes["cold_process_race_probes"]++
+	b.Evaluations++
+	data, err := os.ReadFile(dir + "/res.json")
+	if err != nil {
+		return
+	}
+	var res replayResult
+	if json.Unmarshal(data, &res) != nil {
+		return
+	}
+	// the child records the executed tape in the result's fingerprint only; the
+	// violation keeps the generative seed, which replays identically
+	if res.Reproduced {
+		v.Detail = res.Detail
+		v.Fingerprint = res.Fingerprint
+		logs, _ := os.ReadFile(firstMatch(dir + "/race.*"))
+		v.RaceReport = string(logs)
+		if len(v.RaceReport) > 1<<16 {
+			v.RaceReport = v.RaceReport[:1<<16]
+		}
+		v.Sched.Generative = true
+		b.Probes["race_reports"]++
+		b.violation(v)
+	}
+}
+
+func firstMatch(pat string) string {
+	m, _ := filepath.Glob(pat)
+	if len(m) > 0 {
+		return m[0]
+	}
+	return ""
 }
